@@ -362,10 +362,15 @@ func (n *namer) call(base string) string {
 
 	count, exists := n.perBase[sanitized]
 	if exists {
-		// Already used this base — append suffix with incremented counter
+		// Already used this base — append suffix with incremented counter,
+		// skipping suffixed spellings that are reserved themselves (M_PI_2, M_PI_4)
 		count++
-		n.perBase[sanitized] = count
 		candidate := fmt.Sprintf("%s_%d", sanitized, count)
+		for isReserved(candidate) {
+			count++
+			candidate = fmt.Sprintf("%s_%d", sanitized, count)
+		}
+		n.perBase[sanitized] = count
 		n.usedNames[candidate] = struct{}{}
 		return candidate
 	}
